@@ -8,6 +8,7 @@ import (
 	"errors"
 	"fmt"
 	"io"
+	"math"
 	"sync"
 
 	"github.com/fido-device-onboard/go-fdo/cbor"
@@ -107,9 +108,13 @@ func (r *ChunkReader) ReadChunk(size uint16) (*KV, error) {
 		}
 		r.r = nextReader
 
-		// Limit the max bytes read for the key to size minus 7 (min overhead,
-		// see note below)
-		keyReader := io.LimitReader(r.r, int64(size-7))
+		// Read the whole key, whatever size is left. The key has to be
+		// consumed to know its length, and a reader which has been started
+		// cannot be put back, so a key that does not fit into what is left of
+		// this message must be kept for the next one (see the overhead check
+		// below) rather than cut short. Keys are limited to the max uint16
+		// length a KV can have at all.
+		keyReader := io.LimitReader(r.r, math.MaxUint16)
 
 		// Read key as raw CBOR
 		if err := cbor.NewDecoder(keyReader).Decode(&r.rkey); err != nil {
